@@ -371,3 +371,48 @@ def c20h(ctx):
     ctx.check(ok and (form_loop or form_all) and start, 'LayerMerger.merge:cacheable-iff-all-layers',
               'the merged image is cacheable only if the merger is and every layer image is (one uncacheable layer makes the result uncacheable)', mg,
               fail='a merged image containing an uncacheable (error fill) layer is reported cacheable: it is stored and sent with public cache headers')
+
+
+@rule('C20.i', floor=1)
+def c20i(ctx):
+    """the "do not cache" mark survives a cache that is used as the source of another cache: where CacheMapLayer.get_map pastes the
+    part of the answer that lies inside its extent into a larger image (SubImageSource), the new image inherits `cacheable` from the
+    image it wraps -- otherwise an upstream error that was mapped to an uncached fill image is stored by the outer cache and served
+    with validators"""
+    fn = ctx.fn('mapproxy/layer.py:CacheMapLayer.get_map')
+    wraps = [x for x in fn.walk() if is_call(x, 'SubImageSource') and x.args]
+    if not wraps:
+        ctx.ok('CacheMapLayer.get_map:no-wrapper', 'the answer is never wrapped into another image', fn)
+        return
+    for x in wraps:
+        inner = unparse(x.args[0])
+        c = keyword(x, 'cacheable', 4)
+        ok = c is not None and fn.ctext(c) in ('%s.cacheable' % fn.ctext(x.args[0]), '%s.cacheable' % inner)
+        ctx.check(ok, 'CacheMapLayer.get_map:wrapper-inherits-cacheable', 'SubImageSource(%s, ..., cacheable=%s.cacheable)' % (inner, inner), fn, x,
+                  fail='the image that wraps %s is created with the default cacheable=True: an uncached error image becomes cacheable on its way '
+                       'through a cache that is used as a source' % inner)
+
+
+@rule('C20.j', floor=2)
+def c20j(ctx):
+    """the validators of a tile change when the tile is rewritten: the sqlite backends have no (or only a one-second) time stamp per
+    tile, the ETag relies on the tile *size* that the bulk load records.  Every path through load_tiles that delivers a tile sets
+    tile.size -- a shortcut through load_tile (which records none) yields the same ETag for every version of the tile"""
+    for rel, cname in (('mapproxy/cache/mbtiles.py', 'MBTilesCache'), ('mapproxy/cache/geopackage.py', 'GeopackageCache')):
+        fn = ctx.fn('%s:%s.load_tiles' % (rel, cname))
+        single = ctx.fn('%s:%s.load_tile' % (rel, cname))
+        sets_size = lambda f: any(isinstance(s, ast.Assign) and any(isinstance(t, ast.Attribute) and t.attr == 'size' for t in s.targets) for s in f.walk())
+        sources = [s for s in fn.walk() if isinstance(s, ast.Assign) and any(isinstance(t, ast.Attribute) and t.attr == 'source' for t in s.targets)]
+        ok = bool(sources) and sets_size(fn)
+        g = fn.cfg
+        sizes = [g.node_of[id(s)] for s in fn.walk() if isinstance(s, ast.Assign) and id(s) in g.node_of and
+                 any(isinstance(t, ast.Attribute) and t.attr == 'size' for t in s.targets)]
+        for s in sources:
+            n = g.node_of.get(id(s))
+            # the size is recorded next to the source: no way from the source assignment to the end of the iteration that avoids it
+            ok = ok and n is not None and any(g.dominates(n, z) or g.dominates(z, n) for z in sizes)
+        delegs = [x for x in fn.walk() if is_call(x, 'self.load_tile')]
+        ok = ok and (not delegs or sets_size(single))
+        ctx.check(ok, '%s.load_tiles:size-recorded' % cname, 'every tile delivered by the bulk load has its size recorded (ETag input)', fn,
+                  fail='%s.load_tiles delivers tiles without recording their size%s: the ETag of a tile does not change when the tile is rewritten '
+                       '(304 for outdated content)' % (cname, ' (shortcut through load_tile)' if delegs else ''))
